@@ -24,11 +24,30 @@
   hold whatever error family a failed expectation has — no such failure is reached before the
   `BitReadError`.
 
+  RELATION TO `Props/C12Stream.lean` (namespace `Bufr.Stream`).  That file states the message-level
+  facts the stream theorems need — `C12_suffix_irrelevant`, `C12_no_proper_prefix_decodes` (only
+  "fails with SOME error"), `C12_ofSections_frame` — for `decodeAt` (`Decoder.process` without the
+  signature search) under the HYPOTHESIS that the data reader is prefix-determined (`Local`), and
+  `C12_tableCoder_local` under the hypothesis `hdata` that `decodeData` is.  This file works with the
+  stronger invariant `R.Trunc` (which also pins down what happens on a truncated input) and
+  * DISCHARGES those hypotheses: `decodeData` is `Local` for every template / flag / count
+    (`C12_msg_decodeData_local`), hence the driver's coder `Stream.tableCoder T` is `R.Trunc` and
+    `Local` for every table group and every registry (`C12_msg_tableCoder_trunc`,
+    `C12_msg_tableCoder_local`), which makes the C12Stream theorems unconditional for it
+    (`C12_msg_table_suffix_irrelevant`, `C12_msg_table_no_proper_prefix_decodes`,
+    `C12_msg_table_ofSections_frame`);
+  * REFINES "fails with some error" to the error itself: every proper byte prefix of a message that
+    `decodeAt` consumed completely fails with `BitReadError` — a LIBRARY error, so continue-on-error
+    catches it (`C12_msg_decodeAt_no_proper_prefix`, `C12_msg_decodeAt_prefix_error_isLib`, and the
+    `tableCoder` instance `C12_msg_table_decodeAt_no_proper_prefix`); with the signature search of
+    `decode` the first four cuts are `PyBufrKitError` instead (`C12_msg_no_proper_prefix_decodes`).
+
   Helper lemmas: `Lemmas/SectionsTrunc.lean`.
 -/
 import BufrModel.Lemmas.SectionsTrunc
 import BufrModel.Lemmas.FrameData
 import BufrModel.Gen.Layouts
+import BufrModel.Props.C12Stream
 namespace Bufr
 
 /-! ## bit level -/
@@ -299,5 +318,103 @@ example (x : List UInt8) : ∃ r, decode Gen.layouts (C12Msg.dataCoder C12Msg.tm
     r.serialized = C12Msg.msg := by
   obtain ⟨r, h, hn⟩ := C12Msg.msg_data_hyp
   exact ⟨r, C12_msg_decodeData_suffix_irrelevant Gen.layouts _ {} _ r C12Msg.msg_sig h hn x⟩
+
+/-! ## `decodeAt` (no signature search) and the hypotheses of `Props/C12Stream.lean` -/
+
+/-- **Every cut point of a message is a `BitReadError`** for `Decoder.process(start_signature=None)`:
+    if `decodeAt` consumed all of `m`, decoding its first `k < |m|` octets fails with `BitReadError`
+    — at EVERY cut, the first four octets included (there is no signature search to fail first). -/
+theorem C12_msg_decodeAt_no_proper_prefix {α : Type} (L : Layouts) (dc : DataCoder α)
+    (hdc : ∀ reg, R.Trunc (dc.dec reg)) (o : DecOpts) (m : List UInt8) (r : DecMsg α)
+    (h : decodeAt L dc o m = .ok r) (hn : r.nbits = 8 * m.length) (k : Nat) (hk : k < m.length) :
+    decodeAt L dc o (m.take k) = .error .bitRead := by
+  unfold decodeAt at h
+  split at h
+  · cases h
+  rename_i out rest hd
+  cases h
+  simp only at hn
+  have hb := C12_msg_bits_take L dc hdc o _ out rest hd (8 * k)
+  rw [if_pos (by omega)] at hb
+  simp only [decodeAt, st_bytesToBits_take, hb]
+
+/-- ... so the failure is in the library's error family (what `except PyBufrKitError` catches), and no
+    proper prefix of a message is accepted as a message. -/
+theorem C12_msg_decodeAt_prefix_error_isLib {α : Type} (L : Layouts) (dc : DataCoder α)
+    (hdc : ∀ reg, R.Trunc (dc.dec reg)) (o : DecOpts) (m : List UInt8) (r : DecMsg α)
+    (h : decodeAt L dc o m = .ok r) (hn : r.nbits = 8 * m.length) (k : Nat) (hk : k < m.length) :
+    (∃ e, decodeAt L dc o (m.take k) = .error e ∧ e.isLib = true) ∧
+      ∀ r', decodeAt L dc o (m.take k) ≠ .ok r' := by
+  have := C12_msg_decodeAt_no_proper_prefix L dc hdc o m r h hn k hk
+  exact ⟨⟨_, this, rfl⟩, fun r' hr' => by rw [this] at hr'; cases hr'⟩
+
+/-- `decodeData` is prefix-determined, for every template, compressed or not, any number of subsets:
+    the hypothesis `hdata` of `Stream.C12_tableCoder_local` -/
+theorem C12_msg_decodeData_local : ∀ (t : List Desc) (c : Bool) (n : Nat), Local (decodeData t c n) :=
+  fun t c n => st_local (decodeData_trunc t c n)
+
+/-- the data reader of the driver (`Decoder.process_template_data` against a table group `T`) meets
+    the hypothesis of all the theorems above, whatever the registry holds: missing or ill-typed
+    properties and an unbuildable template are failures that do not depend on the stream, a buildable
+    one is `decodeData` -/
+theorem C12_msg_tableCoder_trunc (T : Tables) : ∀ reg, R.Trunc ((Stream.tableCoder T).dec reg) := by
+  intro reg x a r h
+  unfold Stream.tableCoder at h ⊢
+  simp only at h ⊢
+  split at h
+  · split at h
+    · cases h
+    · exact decodeData_trunc _ _ _ x a r h
+  · cases h
+
+/-- ... hence it is prefix-determined, unconditionally (`Stream.C12_tableCoder_local` without `hdata`) -/
+theorem C12_msg_tableCoder_local (T : Tables) : ∀ reg, Local ((Stream.tableCoder T).dec reg) :=
+  fun reg => st_local (C12_msg_tableCoder_trunc T reg)
+
+/-- `Stream.C12_suffix_irrelevant` for the driver's coder, no hypothesis left -/
+theorem C12_msg_table_suffix_irrelevant (L : Layouts) (T : Tables) (o : DecOpts) (m x : List UInt8)
+    (r : DecMsg (List SubsetOut)) (h : decodeAt L (Stream.tableCoder T) o m = .ok r) :
+    decodeAt L (Stream.tableCoder T) o (m ++ x) = .ok r :=
+  Stream.C12_suffix_irrelevant L _ (C12_msg_tableCoder_local T) o m x r h
+
+/-- `Stream.C12_no_proper_prefix_decodes` for the driver's coder, no hypothesis left -/
+theorem C12_msg_table_no_proper_prefix_decodes (L : Layouts) (T : Tables) (o : DecOpts) (m : List UInt8)
+    (r : DecMsg (List SubsetOut)) (h : decodeAt L (Stream.tableCoder T) o m = .ok r)
+    (hn : r.nbits = 8 * m.length) (k : Nat) (hk : k < m.length) :
+    ∃ e, decodeAt L (Stream.tableCoder T) o (m.take k) = .error e :=
+  Stream.C12_no_proper_prefix_decodes L _ (C12_msg_tableCoder_local T) o m r h hn k hk
+
+/-- ... refined: the error is `BitReadError` at every cut point -/
+theorem C12_msg_table_decodeAt_no_proper_prefix (L : Layouts) (T : Tables) (o : DecOpts) (m : List UInt8)
+    (r : DecMsg (List SubsetOut)) (h : decodeAt L (Stream.tableCoder T) o m = .ok r)
+    (hn : r.nbits = 8 * m.length) (k : Nat) (hk : k < m.length) :
+    decodeAt L (Stream.tableCoder T) o (m.take k) = .error .bitRead :=
+  C12_msg_decodeAt_no_proper_prefix L _ (C12_msg_tableCoder_trunc T) o m r h hn k hk
+
+/-- ... a library error -/
+theorem C12_msg_table_decodeAt_prefix_error_isLib (L : Layouts) (T : Tables) (o : DecOpts) (m : List UInt8)
+    (r : DecMsg (List SubsetOut)) (h : decodeAt L (Stream.tableCoder T) o m = .ok r)
+    (hn : r.nbits = 8 * m.length) (k : Nat) (hk : k < m.length) :
+    ∃ e, decodeAt L (Stream.tableCoder T) o (m.take k) = .error e ∧ e.isLib = true :=
+  (C12_msg_decodeAt_prefix_error_isLib L _ (C12_msg_tableCoder_trunc T) o m r h hn k hk).1
+
+/-- the per-offset decoder the stream theorems of C12Stream quantify over (`C12_isolation`,
+    `C12_without_continue`, ...) has their `Frame` hypothesis when it is the section model with the
+    driver's coder: no hypothesis left -/
+theorem C12_msg_table_ofSections_frame (L : Layouts) (T : Tables) (ign : Bool) :
+    Stream.Frame (Stream.ofSections L (Stream.tableCoder T) ign) :=
+  Stream.C12_ofSections_frame L _ (C12_msg_tableCoder_local T) ign
+
+/-- non-vacuity for `decodeAt`: the concrete message is consumed completely, so all 56 cuts
+    (the cuts inside `BUFR` too) are `BitReadError` -/
+example (k : Nat) (hk : k < 56) :
+    decodeAt Gen.layouts (rawCoder 5) {} (C12Msg.msg.take k) = .error .bitRead := by
+  have hm : (decodeAt Gen.layouts (rawCoder 5) {} C12Msg.msg).map (·.nbits) = .ok (8 * C12Msg.msg.length) := by
+    decide +kernel
+  obtain ⟨r, h, hn⟩ := C12Msg.ok_of_map hm
+  exact C12_msg_decodeAt_no_proper_prefix Gen.layouts _ (C12_msg_rawCoder_trunc 5) {} _ r h hn k hk
+
+example : (decodeAt Gen.layouts (rawCoder 5) {} (C12Msg.msg.take 2)).map (·.nbits) = .error .bitRead := by
+  decide +kernel
 
 end Bufr
